@@ -1,2 +1,4 @@
 def e1_controls(rep):
     pass
+def trampoline_controls(rep):
+    pass
